@@ -161,7 +161,7 @@ pub struct Args {
     pub tier: String,
     pub seed: u64,
     pub out: PathBuf,
-    pub cases: Option<PathBuf>,
+    pub cases: Vec<PathBuf>,
     pub shards: usize,
     pub extra: Vec<String>,
 }
@@ -172,7 +172,7 @@ pub fn parse_args() -> Args {
         tier: "quick".into(),
         seed: 1,
         out: PathBuf::from("out"),
-        cases: None,
+        cases: vec![],
         shards: 8,
         extra: vec![],
     };
@@ -183,7 +183,7 @@ pub fn parse_args() -> Args {
             "--tier" => a.tier = it.next().unwrap(),
             "--seed" => a.seed = it.next().unwrap().parse().unwrap(),
             "--out" => a.out = PathBuf::from(it.next().unwrap()),
-            "--cases" => a.cases = Some(PathBuf::from(it.next().unwrap())),
+            "--cases" => a.cases.push(PathBuf::from(it.next().unwrap())),
             "--shards" => a.shards = it.next().unwrap().parse().unwrap(),
             _ => a.extra.push(x),
         }
